@@ -861,7 +861,10 @@ def S5(ctx: Ctx) -> RuleResult:
         gen_mode = True
     if not (isinstance(lp.iter, TupleT) and lp.iter.items == (self_t,)):
         r.fail('HplExpression.type_check_references:start', f'the work list does not start from self: {lp.iter!r}', fi.where)
+    from .terms import guards_consistent as _gc
     for pg, flow, binds, effs in lp.paths:
+        if not _gc(pg):
+            continue    # a combination of tests that no node satisfies (the same test taken both ways)
         desc = f'[{guards_repr(norm_guards(pg))}]'
         pushes = [c for c in method_calls(effs, 'extend') + method_calls(effs, 'append')]
         pushes_children = any(any(isinstance(y, Call) and call_name(y) == 'children' for y in walk(c)) for c in pushes)
